@@ -275,6 +275,46 @@ func pokeWithCustomHooks(d date.Date) {
 	_, _ = d.MarshalText()
 }
 
+// judgeParsingUnderFormatter: the canonical texts of the date through the input paths (the caller has installed a custom
+// package-level Formatter; see phase A5).
+func judgeParsingUnderFormatter(c Case, w *vkit.W) {
+	defer func() {
+		if p := recover(); p != nil {
+			w.Fail(c, "panic", vkit.PanicDetail(p))
+		}
+	}()
+	y, m, d := c.Y, c.M, c.D
+	orig := date.New(int(y), date.Month(m), d)
+	for _, basic := range []bool{false, true} {
+		text := ref.DateText(y, m, d, basic)
+		check := func(path string, got date.Date, err error) {
+			if err != nil || !got.Equal(orig) {
+				w.Fail(c, "canonical-text-rejected", fmt.Sprintf("%s(%q) while a custom Formatter is installed = %v, %v", path, text, got, err))
+			}
+		}
+		got, err := date.DefaultParser(text, 0)
+		check("DefaultParser[string]", got, err)
+		got, err = date.DefaultParser(w.Scratch(text), 0)
+		check("DefaultParser[[]byte]", got, err)
+		var u date.Date
+		err = u.UnmarshalText(w.Scratch(text))
+		check("UnmarshalText", u, err)
+		// the same text as a JSON string whose first and fifth characters are written as escapes
+		esc := fmt.Sprintf(`"\u%04x%s\u%04x%s"`, text[0], text[1:4], text[4], text[5:])
+		var j date.Date
+		err = json.Unmarshal([]byte(esc), &j)
+		check("json.Unmarshal("+esc+")", j, err)
+	}
+}
+
+func installBasicOnlyFormatter() func() {
+	old := date.Formatter
+	date.Formatter = func(buf []byte, d date.Date, f date.Format) ([]byte, error) {
+		return date.DefaultFormatter(buf, d, date.FormatBasic)
+	}
+	return func() { date.Formatter = old }
+}
+
 func setLimit(n int) func() {
 	old := date.MaxInputLength
 	if n >= 0 {
@@ -312,6 +352,11 @@ func TestCheck(t *testing.T) {
 				return nil, errors.New("formatter refused")
 			}
 			r.Serial(func(w *vkit.W) { judgeFailingFormatter(c, w); w.Eval(true) })
+			return
+		}
+		if c.Setting == "custom-formatter-while-parsing" {
+			defer installBasicOnlyFormatter()()
+			r.Serial(func(w *vkit.W) { judgeParsingUnderFormatter(c, w); w.Eval(true) })
 			return
 		}
 		r.Serial(func(w *vkit.W) { judge(c, w); w.Eval(true) })
@@ -415,6 +460,19 @@ func TestCheck(t *testing.T) {
 						w.EvalRandom(vkit.HashU(uint64(y+sh), uint64(m*32+dd), 7, b2u(basic)), true)
 					}
 				}
+			}
+		})
+	})
+
+	// Phase A5: what the input paths accept does not depend on how dates are printed: a custom package-level Formatter that
+	// always prints the basic form is installed while canonical texts (also spelled with JSON escapes) are read.
+	r.Phase("A5: every input path while a custom package-level Formatter (always the basic form) is installed; JSON strings spelled with escapes", func() {
+		defer installBasicOnlyFormatter()()
+		r.Serial(func(w *vkit.W) {
+			for i := int64(0); i < total; i += 1009 {
+				y, m, d := ref.CivilFromDays(ref.Ord0 + i)
+				judgeParsingUnderFormatter(Case{Y: y, M: m, D: d, Limit: -1, Setting: "custom-formatter-while-parsing"}, w)
+				w.Eval(true)
 			}
 		})
 	})
